@@ -223,28 +223,27 @@ Section SimpleCleaning.
     end.
 
   (* IndividualFields(str, indices, delim, callback): indices = sorted disjoint [begin, end) ranges,
-     end = None for kInfiniteEnd.  `rest` = the bytes from `begin` to the end of the line,
-     None once `begin` has moved past the end (begin >= end => return true). *)
+     end = None for kInfiniteEnd.  `rest` = the bytes from `begin` to the end of the line. *)
   Fixpoint split_first (d : Z) (bs : list Z) (acc : list Z) : list Z * option (list Z) :=
     match bs with
-    | [] => (rev acc, None)                         (* std::find returned end: begin = end + 1 *)
+    | [] => (rev acc, None)                         (* std::find returned end *)
     | b :: r => if b =? d then (rev acc, Some r) else split_first d r (b :: acc)
     end.
 
-  (* for (; index < f.begin; ++index) { begin = find(begin, end, delim) + 1; if (begin >= end) return true; } *)
+  (* for (; index < f.begin; ++index) { found = find(begin, end, delim); if (found == end) return true; begin = found + 1; } *)
   Fixpoint skip_fields (n : nat) (d : Z) (rest : list Z) : option (list Z) :=
     match n with
     | O => Some rest
     | S n' =>
       match snd (split_first d rest []) with
-      | None => None
-      | Some [] => None                              (* begin == end *)
+      | None => None                                  (* the line has fewer fields than requested *)
       | Some r => skip_fields n' d r
       end
     end.
 
-  (* for (; index < f.end; ++index) { callback(field) or return false; begin = found + 1; if (begin >= end) return true; }
-     result: inl b = returned b; inr rest = range exhausted, continue with next range.
+  (* for (; index < f.end; ++index) { found = find(..); if (!callback(field)) return false;
+                                      if (found == end) return true; begin = found + 1; }
+     result: inl b = returned b; inr rest = range exhausted, continue with the next range.
      `fuel` bounds the unbounded kInfiniteEnd range by the number of bytes + 1. *)
   Fixpoint take_fields (fuel : nat) (n : option nat) (d : Z) (rest : list Z) : bool + list Z :=
     match fuel with
@@ -256,8 +255,7 @@ Section SimpleCleaning.
         let (field, after) := split_first d rest [] in
         if negb (sc_filter field) then inl false else
         match after with
-        | None => inl true
-        | Some [] => inl true
+        | None => inl true                            (* that was the last field of the line *)
         | Some r => take_fields fuel' (match n with Some (S k) => Some k | _ => None end) d r
         end
       end
@@ -271,7 +269,7 @@ Section SimpleCleaning.
       | None => true
       | Some rest1 =>
         let idx1 := Nat.max index b in
-        match take_fields (S (length rest1)) (match e with Some e' => Some (e' - idx1)%nat | None => None end) d rest1 with
+        match take_fields (S (S (length rest1))) (match e with Some e' => Some (e' - idx1)%nat | None => None end) d rest1 with
         | inl r => r
         | inr rest2 => individual_fields more (match e with Some e' => Nat.max idx1 e' | None => idx1 end) d rest2
         end
@@ -287,4 +285,6 @@ End SimpleCleaning.
 
 (* ------------------------------------------------------------------ the tools on bytes *)
 Definition lines_of (input : list Z) : list line := records newline true input.
+(* remove_invalid_utf8 passes its own strip_cr argument to ReadLineOrEOF (regenerated) *)
+Definition lines_of_utf8_tool (input : list Z) : list line := records newline utf8_strip_cr input.
 Definition bytes_of (ls : list line) : list Z := unrecords newline ls.
